@@ -107,6 +107,13 @@ class Check(AddCheck):
                     body.append(E('wrapper', E('storyItem', E('itemID', text='nested'))))
             ss = story_send(mid, rng.choice(sids), body=body, pre=pre, post=post)
             ss[3].set('attr', rng.choice(SPECIAL))
+            sb = ss[3].find('storyBody')
+            if rng.random() < 0.5:
+                sb.set('Read1stMEMasBody', 'true')        # attributes, text and tail of the wrapper itself
+                if rng.random() < 0.5:
+                    sb.set('attr', 'on the body')
+            if rng.random() < 0.3:
+                sb.text, sb.tail = '\n  ', ' after body '
             docs.append(ss)
             docs.append(ro_replace(mid, [rich_story(rng, 'R%d' % j, 2) for j in range(rng.randrange(0, 3))] + [deep(rng, 2)]))
             docs.append(metadata_replace(mid, [E('roSlug', text=rng.choice(SPECIAL)), deep(rng, 3),
